@@ -9,28 +9,34 @@ facts used about it (`Validated`) are extracted in `Proofs/ForestValidate.lean` 
 Nothing below bounds the number of variants, the depth of the forest or the length of the history.  `fuel` is the
 Python recursion limit; every statement holds for every value of it.
 
-What the property says and is FALSE of the code (each with a kernel-checked witness below, all replayed on the real
-library by the harness, all listed as known findings):
-* F13 – a refused `add` leaves the children dicts alone (`C11_refused`) but has already rewritten the parent pointer
-  of its argument;
-* F19 – `Variants.add` validates an object against a stale parent pointer: an already placed child is accepted at the
-  top level, sits in two dicts and is returned twice by `get_variants`;
-* F14 – a dashed top-level UID may collide with a child's UID; lookup by UID then finds the top-level one;
-* F20 – `__getitem__` compares the *relative* path with full child UIDs: `A-A-C` resolves to the sibling `A-C`;
-* F21 – with `'self'` the receiver is returned whatever the arch filter; on the top-level container it raises.
+`add` interprets the statement script of `VariantBase.add` regenerated from the source (`Gen.forest_add_script`,
+tools/gen_forest.py); `script_here` pins the order the proofs are about: save the old parent pointer, write the new one
+(`None` in the top-level container), then validate / ancestor check / `setdefault` / duplicate refusal inside `try`, and a
+handler that restores the saved pointer.  (F13 and F26 – parent pointer rewritten by a refused add / not reset by a
+top-level add – are repaired by that order; before it `C11_refused` held for the children dicts only.)
+
+What the property says and is still FALSE of the code (each with a kernel-checked witness below, replayed on the real
+library by the harness, listed as known findings):
+* F33 – `add` does not check that its argument is already filed under ANOTHER object: two `Variant` objects with one UID
+  both accept the same child, so the full `Inv` is not an invariant of ALL histories (it is for all histories over
+  objects with pairwise different UIDs: `C11_reachable_distinct_partial`);
+* F14 – a dashed top-level UID may collide with a child's UID; lookup by UID then finds the top-level one, and through
+  F33 a variant can still be returned twice by `get_variants`;
+* F27 – `__getitem__` compares the *relative* path with full child UIDs: `A-A-C` resolves to the sibling `A-C`;
+* F28 – with `'self'` the receiver is returned whatever the arch filter; on the top-level container it raises;
+* F29 – an explicit top-level `variant_id` is not checked against id/UID.
 -/
 namespace PM.Forest
 
 /-! ## add -/
 
-/-- A refused `add` – whatever the cause: validation, ancestor check, recursion limit, duplicate key – leaves the
-children dict of every container unchanged. (Proved from the order of mutations: the only write before the last
-check is to the parent pointer.) -/
+/-- A refused `add` – whatever the cause: validation, ancestor check, recursion limit, duplicate key – returns the WHOLE
+state it started from: every children dict and every parent pointer.  (Proved from the order of mutations in the script
+read from the source: the parent pointer written first is restored by the handler, `setParent_restore`.) -/
 theorem C11_refused (U : Nat → Attrs) (fuel : Nat) (s : State) (c : Cont) (v : Nat) (key : Option Str) (e : Err)
-    (h : (add U fuel s c v key).2 = .error e) :
-    (add U fuel s c v key).1.kids = s.kids ∧ (add U fuel s c v key).1.top = s.top := by
+    (h : (add U fuel s c v key).2 = .error e) : (add U fuel s c v key).1 = s := by
   rcases add_cases U fuel s c v key with ⟨e', h'⟩ | ⟨h', -⟩ | ⟨h', -⟩
-  · rw [h']; simp
+  · rw [h']
   · rw [h'] at h; simp at h
   · rw [h'] at h; simp at h
 
@@ -56,11 +62,19 @@ theorem C11_inv (U : Nat → Attrs) (fuel : Nat) (s : State) (c : Cont) (v : Nat
     (h : InvW U s) : InvW U (add U fuel s c v key).1 := h.add fuel c v key
 
 /-- Full statement wanted: `Inv` (= `InvW` + parent pointers mirror the dicts + an object sits in one place + top-level
-UIDs align with ids + top-level keys are id or UID) is preserved by every `add`.  FALSE of the code (F13, F19, F22;
-witnesses below).  Proved for calls that pass an object which is not yet in the forest, with parent pointer `None`
-and key id/UID when added at the top level (`Fresh`) – the outcome of the call is arbitrary. -/
+UIDs align with ids + top-level keys are id or UID) is preserved by every `add`.  Still FALSE of the code after the F13/F26
+repair (F33: `C11_two_parents_witness`; F29).  Proved for every call – accepted or refused, whatever the parent pointer of
+the argument, whatever happened before – whose argument is not already filed under another container or key (`AddOk`). -/
 theorem C11_inv_partial (U : Nat → Attrs) (fuel : Nat) (s : State) (c : Cont) (v : Nat) (key : Option Str)
-    (h : Inv U s) (hf : Fresh U s c v key) : Inv U (add U fuel s c v key).1 := h.add fuel c v key hf
+    (h : Inv U s) (hf : AddOk U s c v key) : Inv U (add U fuel s c v key).1 := h.add fuel c v key hf
+
+/-- …and for EVERY call with the default key, no hypothesis on the call at all, when the objects have pairwise different
+UIDs (`UidsApart`): an object the validators accept under `c` cannot be filed anywhere else. -/
+theorem C11_inv_distinct_partial (U : Nat → Attrs) (hU : UidsApart U) (fuel : Nat) (s : State) (c : Cont) (v : Nat)
+    (h : Inv U s) (htop : ∀ kv ∈ s.top, kv.1 = (U kv.2).id) :
+    Inv U (add U fuel s c v none).1 ∧ ∀ kv ∈ (add U fuel s c v none).1.top, kv.1 = (U kv.2).id :=
+  ⟨h.add_core fuel c v none (fun hv => elsewhere_of_valid h hU htop c v hv) (fun _ k hk => by cases hk),
+   topIds_add U fuel s c v htop⟩
 
 /-- Every state reachable from the empty forest by ANY history of `add` calls satisfies `InvW`. -/
 theorem C11_reachable (U : Nat → Attrs) (fuel : Nat) (ops : List Op) : InvW U (run U fuel ops) := by
@@ -70,21 +84,41 @@ theorem C11_reachable (U : Nat → Attrs) (fuel : Nat) (ops : List Op) : InvW U 
   | nil => intro s h; exact h
   | cons o os ih => intro s h; exact ih _ (h.add fuel o.c o.v o.key)
 
-/-- every call of the history satisfies `Fresh` in the state it is made in -/
-def FreshRun (U : Nat → Attrs) (fuel : Nat) : State → List Op → Prop
+/-- every call of the history satisfies `AddOk` in the state it is made in -/
+def OkRun (U : Nat → Attrs) (fuel : Nat) : State → List Op → Prop
   | _, [] => True
-  | s, o :: os => Fresh U s o.c o.v o.key ∧ FreshRun U fuel (step U fuel s o) os
+  | s, o :: os => AddOk U s o.c o.v o.key ∧ OkRun U fuel (step U fuel s o) os
 
-/-- Every state reachable by a history of valid and invalid `add` calls on fresh objects satisfies the full `Inv`. -/
+/-- Every state reachable by a history of valid and invalid `add` calls that never hand over an object already filed
+elsewhere satisfies the full `Inv`. -/
 theorem C11_reachable_partial (U : Nat → Attrs) (fuel : Nat) (ops : List Op)
-    (hf : FreshRun U fuel State.empty ops) : Inv U (run U fuel ops) := by
+    (hf : OkRun U fuel State.empty ops) : Inv U (run U fuel ops) := by
   unfold run
-  have key : ∀ (ops : List Op) (s : State), Inv U s → FreshRun U fuel s ops → Inv U (ops.foldl (step U fuel) s) := by
+  have key : ∀ (ops : List Op) (s : State), Inv U s → OkRun U fuel s ops → Inv U (ops.foldl (step U fuel) s) := by
     intro ops
     induction ops with
     | nil => intro s h _; exact h
     | cons o os ih => intro s h hf; exact ih (step U fuel s o) (h.add fuel o.c o.v o.key hf.1) hf.2
   exact key ops _ (Inv.empty U) hf
+
+/-- ALL histories of `add` calls with the default key – valid, invalid, re-adds, already placed arguments, any
+interleaving – over objects with pairwise different UIDs end in a state satisfying the full `Inv`. -/
+theorem C11_reachable_distinct_partial (U : Nat → Attrs) (hU : UidsApart U) (fuel : Nat) (ops : List Op)
+    (hk : ∀ o ∈ ops, o.key = none) : Inv U (run U fuel ops) := by
+  unfold run
+  have key : ∀ (ops : List Op) (s : State), (∀ o ∈ ops, o.key = none) → Inv U s → (∀ kv ∈ s.top, kv.1 = (U kv.2).id) →
+      Inv U (ops.foldl (step U fuel) s) := by
+    intro ops
+    induction ops with
+    | nil => intro s _ h _; exact h
+    | cons o os ih =>
+      intro s hk h htop
+      have hko : o.key = none := hk o (by simp)
+      have := C11_inv_distinct_partial U hU fuel s o.c o.v h htop
+      refine ih (step U fuel s o) (fun o' ho' => hk o' (List.mem_cons_of_mem _ ho')) ?_ ?_
+      · unfold step; rw [hko]; exact this.1
+      · unfold step; rw [hko]; exact this.2
+  exact key ops _ hk (Inv.empty U) (by intro kv hkv; simp [State.empty] at hkv)
 
 /-! ## lookup -/
 
@@ -272,23 +306,44 @@ def resOf {α} : Except Err α → Option α
   | .ok a => some a
   | .error _ => none
 
-/-- F13: `G` top-level, `P = G-P` below it; `P.add(G)` is refused with ValueError, no dict changes, but `G.parent` is
-now `P` – the mirror between parent pointers and dicts (part of `Inv`) is broken by a REFUSED call. -/
+/-- F13 (repaired): `G` top-level, `P = G-P` below it; `P.add(G)` is refused with ValueError and `G.parent` is still
+`None` afterwards (before the repair it was `P`). -/
 def U13 := mkU [mkA "G" "G", mkA "P" "G-P"]
 def s13 := run U13 50 [⟨none, 0, none⟩, ⟨some 0, 1, none⟩]
-theorem C11_refused_parent_witness :
+theorem C11_refused_ancestor_example :
     s13.top = [("G".toList, 0)] ∧ s13.kids 0 = [("P".toList, 1)] ∧ s13.parent 0 = none ∧
     outErr (add U13 50 s13 (some 1) 0 none).2 = some .valueError ∧
     (add U13 50 s13 (some 1) 0 none).1.top = [("G".toList, 0)] ∧
-    (add U13 50 s13 (some 1) 0 none).1.parent 0 = some 1 := by decide +kernel
+    (add U13 50 s13 (some 1) 0 none).1.parent 0 = none := by decide +kernel
 
-/-- F19: `S`, `C = S-C` below it; `top.add(C)` is ACCEPTED (validated against the stale parent `S`); `C` is in two
-dicts and `get_variants(recursive=True)` returns it twice. -/
+/-- F26 (repaired): `S`, `C = S-C` below it; `top.add(C)` is now REFUSED (as a top-level variant its UID does not align)
+and `C` stays where it was, pointing at `S`. -/
 def U19 := mkU [mkA "S" "S", mkA "C" "S-C"]
-def s19 := run U19 50 [⟨none, 0, none⟩, ⟨some 0, 1, none⟩, ⟨none, 1, none⟩]
-theorem C11_stale_parent_witness :
-    s19.top = [("S".toList, 0), ("C".toList, 1)] ∧ s19.kids 0 = [("C".toList, 1)] ∧ s19.parent 1 = some 0 ∧
-    resOf (getVariants U19 s19 50 none none [] true) = some [0, 1, 1] := by decide +kernel
+def s19 := run U19 50 [⟨none, 0, none⟩, ⟨some 0, 1, none⟩]
+theorem C11_top_add_placed_example :
+    outErr (add U19 50 s19 none 1 none).2 = some .valueError ∧
+    (add U19 50 s19 none 1 none).1.top = [("S".toList, 0)] ∧ (add U19 50 s19 none 1 none).1.parent 1 = some 0 ∧
+    resOf (getVariants U19 s19 50 none none [] true) = some [0, 1] := by decide +kernel
+
+/-- F33: two objects `S`, `S'` with one UID (the second refused as a duplicate id); `C` is added to `S`, then ACCEPTED by
+`S'` as well: it sits in two dicts and its parent pointer names `S'`, which is not in the forest.  The mirror between
+parent pointers and dicts (part of `Inv`) is broken by an ACCEPTED call on a state that satisfies `Inv`. -/
+def U33 := mkU [mkA "S" "S", mkA "S" "S", mkA "C" "S-C"]
+def s33 := run U33 50 [⟨none, 0, none⟩, ⟨none, 1, none⟩, ⟨some 0, 2, none⟩]
+theorem C11_two_parents_witness :
+    s33.top = [("S".toList, 0)] ∧ s33.kids 0 = [("C".toList, 2)] ∧ s33.kids 1 = [] ∧ s33.parent 2 = some 0 ∧
+    outErr (add U33 50 s33 (some 1) 2 none).2 = none ∧
+    (add U33 50 s33 (some 1) 2 none).1.kids 0 = [("C".toList, 2)] ∧
+    (add U33 50 s33 (some 1) 2 none).1.kids 1 = [("C".toList, 2)] ∧
+    (add U33 50 s33 (some 1) 2 none).1.parent 2 = some 1 := by decide +kernel
+
+/-- F14 + F33: with the pair top-level `Server-Tools` / `Server → Tools` in the forest, a child of the one is accepted by the
+other and `get_variants(recursive=True)` still returns a variant twice. -/
+def U14b := mkU [mkA "Server" "Server", mkA "Tools" "Server-Tools", mkA "ServerTools" "Server-Tools", mkA "V" "Server-Tools-V"]
+def s14b := run U14b 50 [⟨none, 0, none⟩, ⟨some 0, 1, none⟩, ⟨none, 2, none⟩, ⟨some 1, 3, none⟩, ⟨some 2, 3, none⟩]
+theorem C11_twice_witness :
+    s14b.kids 1 = [("V".toList, 3)] ∧ s14b.kids 2 = [("V".toList, 3)] ∧
+    resOf (getVariants U14b s14b 50 none none [] true) = some [0, 1, 2, 3, 3] := by decide +kernel
 
 /-- F14: top-level `ServerTools` with UID `Server-Tools` next to `Server → Tools`: all three adds accepted, two variants
 share a UID and `ci["Server-Tools"]` is the top-level one. -/
@@ -316,47 +371,53 @@ theorem C11_self_witness :
 hypotheses of the `_partial` theorems on the resulting three-level forest -/
 def Uex := mkU [mkA "A" "A" ["x86_64", "i386"], mkA "B" "A-B", mkA "C" "A-B-C", mkA "X" "A-X" ["ppc64le"]]
 def opsEx : List Op := [⟨none, 0, none⟩, ⟨some 0, 1, none⟩, ⟨some 0, 3, none⟩, ⟨some 1, 2, none⟩]
-def sEx1 : State := ⟨fun _ => none, fun _ => [], [("A".toList, 0)]⟩
+def sEx1 : State := ⟨fun j => if j = 0 then none else none, fun _ => [], [("A".toList, 0)]⟩
 def sEx2 : State :=
-  ⟨fun j => if j = 1 then some 0 else none, fun j => if j = 0 then [("B".toList, 1)] else [], [("A".toList, 0)]⟩
-def sEx3 : State :=
-  ⟨fun j => if j = 3 then some 0 else if j = 1 then some 0 else none,
+  ⟨fun j => if j = 1 then some 0 else if j = 0 then none else none,
    fun j => if j = 0 then [("B".toList, 1)] else [], [("A".toList, 0)]⟩
 def sEx : State :=
-  ⟨fun j => if j = 2 then some 1 else if j = 3 then some 0 else if j = 1 then some 0 else none,
+  ⟨fun j => if j = 2 then some 1 else if j = 1 then some 0 else if j = 0 then none else none,
    fun j => if j = 1 then [("C".toList, 2)] else if j = 0 then [("B".toList, 1)] else [],
    [("A".toList, 0)]⟩
 
+theorem ex_refused : outErr (add Uex 50 sEx2 (some 0) 3 none).2 = some .valueError := by decide +kernel
 theorem ex_step1 : step Uex 50 State.empty ⟨none, 0, none⟩ = sEx1 := rfl
 theorem ex_step2 : step Uex 50 sEx1 ⟨some 0, 1, none⟩ = sEx2 := rfl
-theorem ex_step3 : step Uex 50 sEx2 ⟨some 0, 3, none⟩ = sEx3 := rfl      -- refused: only the parent pointer of 3 changes
-theorem ex_step4 : step Uex 50 sEx3 ⟨some 1, 2, none⟩ = sEx := rfl
-theorem ex_refused : outErr (add Uex 50 sEx2 (some 0) 3 none).2 = some .valueError := by decide +kernel
-theorem ex_run : run Uex 50 opsEx = sEx := rfl
+/-- the refused call (foreign arch) returns the very state it started from: `C11_refused` -/
+theorem ex_step3 : step Uex 50 sEx2 ⟨some 0, 3, none⟩ = sEx2 := by
+  have := ex_refused
+  unfold step
+  cases h : (add Uex 50 sEx2 (some 0) 3 none).2 with
+  | ok u => rw [h] at this; simp [outErr] at this
+  | error e => exact C11_refused Uex 50 sEx2 (some 0) 3 none e h
+theorem ex_step4 : step Uex 50 sEx2 ⟨some 1, 2, none⟩ = sEx := rfl
+theorem ex_run : run Uex 50 opsEx = sEx := by
+  show step Uex 50 (step Uex 50 (step Uex 50 (step Uex 50 State.empty _) _) _) _ = sEx
+  rw [ex_step1, ex_step2, ex_step3, ex_step4]
 
-theorem ex_fresh : FreshRun Uex 50 State.empty opsEx := by
-  unfold opsEx FreshRun
-  refine ⟨⟨?_, (fun _ => rfl), (fun _ k hk => by cases hk)⟩, ?_⟩
-  · rintro ⟨c, k, h⟩; cases c <;> simp [State.kidsOf, State.empty] at h
-  rw [ex_step1]; unfold FreshRun
-  refine ⟨⟨?_, (fun h => by cases h), (fun h => by cases h)⟩, ?_⟩
-  · rintro ⟨c, k, h⟩; cases c <;> simp [State.kidsOf, sEx1] at h
-  rw [ex_step2]; unfold FreshRun
-  refine ⟨⟨?_, (fun h => by cases h), (fun h => by cases h)⟩, ?_⟩
-  · rintro ⟨c, k, h⟩
+theorem ex_ok : OkRun Uex 50 State.empty opsEx := by
+  unfold opsEx OkRun
+  refine ⟨⟨?_, (fun _ k hk => by cases hk)⟩, ?_⟩
+  · rintro c k h; cases c <;> simp [State.kidsOf, State.empty] at h
+  rw [ex_step1]; unfold OkRun
+  refine ⟨⟨?_, (fun h => by cases h)⟩, ?_⟩
+  · rintro c k h; cases c <;> simp [State.kidsOf, sEx1] at h
+  rw [ex_step2]; unfold OkRun
+  refine ⟨⟨?_, (fun h => by cases h)⟩, ?_⟩
+  · rintro c k h
     cases c with
     | none => simp [State.kidsOf, sEx2] at h
     | some i => simp only [State.kidsOf, sEx2] at h; split at h <;> simp at h
-  rw [ex_step3]; unfold FreshRun
-  refine ⟨⟨?_, (fun h => by cases h), (fun h => by cases h)⟩, trivial⟩
-  · rintro ⟨c, k, h⟩
+  rw [ex_step3]; unfold OkRun
+  refine ⟨⟨?_, (fun h => by cases h)⟩, trivial⟩
+  · rintro c k h
     cases c with
-    | none => simp [State.kidsOf, sEx3] at h
-    | some i => simp only [State.kidsOf, sEx3] at h; split at h <;> simp at h
+    | none => simp [State.kidsOf, sEx2] at h
+    | some i => simp only [State.kidsOf, sEx2] at h; split at h <;> simp at h
 
 /-- the full invariant on the example forest, through `C11_reachable_partial` -/
 theorem ex_inv : Inv Uex sEx := by
-  have := C11_reachable_partial Uex 50 opsEx ex_fresh
+  have := C11_reachable_partial Uex 50 opsEx ex_ok
   rwa [ex_run] at this
 
 theorem ex_desc (a x : Nat) (h : Desc sEx (some a) x) : (a = 0 ∧ (x = 1 ∨ x = 2)) ∨ (a = 1 ∧ x = 2) := by
@@ -407,12 +468,52 @@ example (res : List Nat) (hr : getVariants Uex sEx 50 none (some srcA) [] true =
   (C11_get_variants_strict_dashless_partial Uex sEx ex_inv
     (by intro kv hkv; simp [sEx] at hkv; subst hkv; decide +kernel) 50 _ _ _ res hr).2
 
-/-- `C11_refused` is not vacuous: the refused call of the example changed the parent pointer only -/
-example : (add Uex 50 sEx2 (some 0) 3 none).1.kids = sEx2.kids ∧ (add Uex 50 sEx2 (some 0) 3 none).1.top = sEx2.top :=
-  C11_refused Uex 50 sEx2 (some 0) 3 none .valueError (by
-    have := ex_refused
-    cases h : (add Uex 50 sEx2 (some 0) 3 none).2 with
-    | ok u => rw [h] at this; simp [outErr] at this
-    | error e => rw [h] at this; simp [outErr] at this; rw [this])
+/-- `C11_refused` is not vacuous: `ex_step3` above is an instance (a refused call on a two-variant forest). -/
+example : (add Uex 50 sEx2 (some 0) 3 none).1 = sEx2 := ex_step3
+
+/-- `UidsApart` is inhabited by an infinite universe with parents and children: object `2n` is the top-level variant
+`a…a` (n+1 letters), object `2n+1` its child `a…a-b`. -/
+def Upar (i : Nat) : Attrs :=
+  if i % 2 = 0 then ⟨List.replicate (i / 2 + 1) 'a', List.replicate (i / 2 + 1) 'a', ['n'], "variant".toList, [['x']]⟩
+  else ⟨['b'], List.replicate (i / 2 + 1) 'a' ++ ['-', 'b'], ['n'], "addon".toList, [['x']]⟩
+
+example : UidsApart Upar := by
+  have nodash : ∀ n, '-' ∉ List.replicate n 'a' := by
+    intro n h; have := (List.mem_replicate.mp h).2; revert this; decide
+  constructor
+  · intro i j h
+    unfold Upar at h
+    by_cases hi : i % 2 = 0 <;> by_cases hj : j % 2 = 0 <;> simp only [hi, hj, if_true, if_false] at h
+    · have := congrArg List.length h; simp at this; omega
+    · exfalso; apply nodash (i / 2 + 1); rw [h]; simp
+    · exfalso; apply nodash (j / 2 + 1); rw [← h]; simp
+    · have := congrArg List.length h; simp at this; omega
+  · intro i h
+    have ha : 'a' ∈ Str.removeChar '-' (Upar i).uid := by
+      unfold Upar Str.removeChar
+      by_cases hi : i % 2 = 0 <;> simp [hi]
+    rw [h] at ha; simp at ha
+/-- and the all-histories theorem applies to it: e.g. top-level `a`, its child `a-b`, then the child handed to the top level
+and to another parent – both refused, the forest keeps the full invariant -/
+example : Inv Upar (run Upar 50 [⟨none, 0, none⟩, ⟨some 0, 1, none⟩, ⟨none, 1, none⟩, ⟨some 2, 1, none⟩]) :=
+  C11_reachable_distinct_partial Upar (by
+    have nodash : ∀ n, '-' ∉ List.replicate n 'a' := by
+      intro n h; have := (List.mem_replicate.mp h).2; revert this; decide
+    constructor
+    · intro i j h
+      unfold Upar at h
+      by_cases hi : i % 2 = 0 <;> by_cases hj : j % 2 = 0 <;> simp only [hi, hj, if_true, if_false] at h
+      · have := congrArg List.length h; simp at this; omega
+      · exfalso; apply nodash (i / 2 + 1); rw [h]; simp
+      · exfalso; apply nodash (j / 2 + 1); rw [← h]; simp
+      · have := congrArg List.length h; simp at this; omega
+    · intro i h
+      have ha : 'a' ∈ Str.removeChar '-' (Upar i).uid := by
+        unfold Upar Str.removeChar
+        by_cases hi : i % 2 = 0 <;> simp [hi]
+      rw [h] at ha; simp at ha) 50 _ (by intro o ho; simp at ho; rcases ho with rfl | rfl | rfl | rfl <;> rfl)
+example : (run Upar 50 [⟨none, 0, none⟩, ⟨some 0, 1, none⟩, ⟨none, 1, none⟩, ⟨some 2, 1, none⟩]).kids 0 = [(['b'], 1)]
+    ∧ (run Upar 50 [⟨none, 0, none⟩, ⟨some 0, 1, none⟩, ⟨none, 1, none⟩, ⟨some 2, 1, none⟩]).top = [(['a'], 0)] := by
+  decide +kernel
 
 end PM.Forest
